@@ -176,6 +176,87 @@ def check_curve(desc, scale, acc, only_s=None, rot=0):
             c.length = origs[c]
 
 
+def check_call_sequences(desc, scale, acc, only=None):
+    """every ordered pair of calls (s_a, s_tol_a) then (s_b, s_tol_b) on ONE object: the second answer must
+    meet its own tolerance whatever was asked before (anything remembered between calls must not be
+    trusted beyond the tolerance it was computed with)"""
+    probe = make_curve(desc, scale)
+    L = probe.length()
+    kind = 'P' if isinstance(probe, Path) else type(probe).__name__[0]
+    segs = list(probe) if isinstance(probe, Path) else [probe]
+    if any(not isinstance(g, (Arc, Line)) and (refgeom.speed_zero_in(list(g.bpoints()), 0, 1) or
+                                               refgeom.near_speed_zero(list(g.bpoints()), 0, 1)) for g in segs):
+        acc.filt('call_sequences_skip_speed_zero')
+        return
+    calls = [(f * L, tol) for f in (1 / 3.0, 1 / 3.0 + 1e-4, 0.5, 0.9) for tol in (None, 1e-2 * L, 1e-6 * L)]
+    for ia, a in enumerate(calls):
+        for ib, b in enumerate(calls):
+            if only is not None and (ia, ib) != tuple(only):
+                continue
+            curve = make_curve(desc, scale)
+            case = {'curve': desc, 'scale': scale, 'sequence': [ia, ib]}
+            acc.case(case, cls='%s/call_sequence' % kind)
+            with warnings.catch_warnings():
+                warnings.simplefilter('ignore')
+                outcome(lambda: curve.ilength(a[0]) if a[1] is None else curve.ilength(a[0], s_tol=a[1]))
+                r = outcome(lambda: curve.ilength(b[0]) if b[1] is None else curve.ilength(b[0], s_tol=b[1]))
+            sig = {'kind': kind, 'first_tol': 'default' if a[1] is None else 'coarse', 'second_tol': 'default' if b[1] is None else 'coarse'}
+            if r[0] != 'ok' or not 0 <= float(r[1]) <= 1:
+                acc.violation('ilength_raises_or_does_not_terminate', dict(sig, exc=r[1] if r[0] != 'ok' else 'out_of_range'), case, observed=r)
+                continue
+            t = float(r[1])
+            fresh = make_curve(desc, scale)
+            if not isinstance(fresh, Path):
+                st = fresh.length(0, t)
+            else:
+                k, u = fresh.T2t(t)
+                st = sum(fresh[i].length() for i in range(k)) + fresh[k].length(0, min(max(u, 0.0), 1.0))
+            tol = (b[1] or 0.0) + max(1e-12, 4096 * math.ulp(L)) * (4 if isinstance(fresh, Path) else 1)
+            if not abs(st - b[0]) <= tol:
+                acc.violation('second_call_misses_its_tolerance', sig, case, observed={'t': t, 'length(0,t)': st}, expected=b[0],
+                              detail='tolerance %g; first call was ilength(%r, s_tol=%r)' % (tol, a[0], a[1]))
+
+
+MUTATIONS = [('setitem', -1.0, -2.0), ('setitem', -3.0, -4.0), ('start=', -1.0, -2.0), ('start=', -3.0, -4.5),
+             ('setitem_imag', -1.0, -2.0), ('end=', -1.0, -2.0)]
+
+
+def check_after_mutation(mi, acc):
+    """ilength, then an edit through the Path's interface, then ilength again - against a fresh Path of the
+    edited segments.  The edits include -1 -> -2 (equal hashes in CPython)."""
+    how, v0, v1 = MUTATIONS[mi]
+    for tail in ('L', 'C'):
+        second = Line(3 + 0j, 3 + 4j) if tail == 'L' else CubicBezier(3 + 0j, 4 + 1j, 4 + 3j, 3 + 4j)
+        if how == 'setitem_imag':
+            mk = lambda v: [Line(complex(0, v), 3 + 0j), second]
+        elif how == 'end=':
+            mk = lambda v: [Line(0j, 3 + 0j), Line(3 + 0j, complex(v, 5.0))]
+        else:
+            mk = lambda v: [Line(complex(v, 0), 3 + 0j), second]
+        p = Path(*mk(v0))
+        for frac in (0.3, 0.8):
+            case = {'mutation': mi, 'tail': tail, 'fraction': frac}
+            acc.case(case, cls='P/after_mutation')
+            with warnings.catch_warnings():
+                warnings.simplefilter('ignore')
+                outcome(lambda: p.ilength(frac * p.length()))
+                q = Path(*mk(v0))
+                outcome(lambda: q.ilength(frac * q.length()))
+                new = mk(v1)
+                if how.startswith('setitem'):
+                    q[0] = new[0]
+                elif how == 'start=':
+                    q.start = new[0].start
+                else:
+                    q.end = new[-1].end
+                fresh = Path(*mk(v1))
+                s_ = frac * fresh.length()
+                r, w = outcome(lambda: q.ilength(s_)), outcome(lambda: fresh.ilength(s_))
+            if r[0] != 'ok' or w[0] != 'ok' or not abs(float(r[1]) - float(w[1])) <= 1e-9:
+                acc.violation('ilength_after_mutation_differs_from_fresh', {'how': how, 'same_hash': (v0, v1) == (-1.0, -2.0)}, case,
+                              observed=r, expected=w)
+
+
 def tier_params(tier, seed):
     if tier == 'quick':
         return {'scales': [1e-3, 0.1, 1.0, 1e2, 1e3, 1e4, 3.7e4, 1e5, 1e6], 'rots': [0, 37]}
@@ -184,29 +265,49 @@ def tier_params(tier, seed):
 
 def shards(tier, seed):
     tp = tier_params(tier, seed)
-    return [{'curve': d, 'scale': sc, 'rot': r} for sc in tp['scales'] for r in tp['rots'] for d in SHAPES + [list(p) for p in PATHS]]
+    out = [{'curve': d, 'scale': sc, 'rot': r} for sc in tp['scales'] for r in tp['rots'] for d in SHAPES + [list(p) for p in PATHS]]
+    out += [{'what': 'sequences', 'curve': d, 'scale': sc} for d in SHAPES + [list(p) for p in PATHS]
+            for sc in ([1.0] if tier == 'quick' else [1.0, 1e-2, 1e3])]
+    out += [{'what': 'mutation', 'mi': i} for i in range(len(MUTATIONS))]
+    return out
 
 
 def run_shard(desc, tier, seed):
     acc = core.Acc()
+    if desc.get('what') == 'mutation':
+        check_after_mutation(desc['mi'], acc)
+        return acc
     d = desc['curve']
+    if desc.get('what') == 'sequences':
+        check_call_sequences(d if isinstance(d, str) else tuple(d), desc['scale'], acc)
+        return acc
     check_curve(d if isinstance(d, str) else tuple(d), desc['scale'], acc, rot=desc.get('rot', 0))
     return acc
 
 
 def expected_classes(tier):
-    return ['L/interior', 'Q/interior', 'C/interior', 'A/interior', 'P/interior', 'C/s=0', 'C/s=L', 'P/out_of_range']
+    return ['L/interior', 'Q/interior', 'C/interior', 'A/interior', 'P/interior', 'C/s=0', 'C/s=L', 'P/out_of_range',
+            'C/call_sequence', 'A/call_sequence', 'P/call_sequence', 'P/after_mutation']
 
 
 def space(tier, seed):
     return {'shapes': SHAPES, 'paths': PATHS, 'scales': tier_params(tier, seed)['scales'], 'rotations': tier_params(tier, seed)['rots'],
             's_alphabet': '0, L, L*2^-30, L/7, L/3, L/2, 0.9L, L(1-2^-52), L(1-1e-9), nextafter(0,1), 1e-9 L, path segment boundaries and their float neighbours; out of range: -L/10, -tiny, L(1+1e-9), 2L',
-            'length_evaluation_budget': BUDGET}
+            'length_evaluation_budget': BUDGET,
+            'call_sequences': 'all ordered pairs of 12 calls (s in {L/3, L/3+1e-4L, L/2, 0.9L} x s_tol in {default, 1e-2 L, 1e-6 L}) on one object',
+            'after_mutation': [list(m) for m in MUTATIONS]}
 
 
 def replay(case):
     acc = core.ReplayAcc()
+    if 'mutation' in case:
+        check_after_mutation(case['mutation'], acc)
+        acc.vlist = [v for v in acc.vlist if v['case'] == case]
+        return acc.vlist
     d = case['curve']
+    if 'sequence' in case:
+        check_call_sequences(d if isinstance(d, str) else tuple(d), case['scale'], acc, only=case['sequence'])
+        return acc.vlist
     d = d if isinstance(d, str) else tuple(d)
     if case.get('oor') or 's2' in case:
         check_curve(d, case['scale'], acc, rot=case.get('rot', 0))
